@@ -21,6 +21,7 @@ RULE = ('fault-free worlds with suites nested to depth 4, layer/level declaratio
         'reference model embeds the pattern (C08) and level/nearest-declaration (C09) semantics. '
         'distinct = digest of hook sequences + option keys; non-trivial = a filter removed '
         'something or children ran')
+RULE += (' One spec in seven gives overlapping search directories through -s (a package and its sub-package).')
 RULE += (' ' + "Later additions: one spec in eight injects a spawn failure for one layer (only that layer's tests are excused); command-line use (sys.argv read by the runner) with a test that changes sys.argv in place before layers are resumed.")
 T_FRAGS = ['test_a', 'test_b', 'test_c', 'TC0', 'TC1', 'test_m0', 'test_m1', r'TC[01]\.test_a',
            '(?i)TEST_A', '(?i)tc1', r'(test_)a.*\1a', r'(?P<n>TC0).*(?P=n)',
@@ -103,6 +104,12 @@ def gen(seed):
         names = [m.full(L['name']) for L in world['layers']] + [W.UNIT]
         plan.append({'site': 'channel', 'ident': srng.choice(names), 'a': 'spawn_fail',
                      'errno': srng.choice(['EAGAIN', 'ENOMEM']), 'exc': 'OSError'})
+    if seed % 7 == 3 and not opt.get('relpath'):
+        # search directories that overlap: a package and one of its sub-packages given with
+        # -s (in either order, or the same one twice) - every test still exactly once
+        srng = random.Random(seed ^ 0x5EA)
+        opt['package'] = srng.choice([['wpkg', 'wpkg.tests'], ['wpkg.tests', 'wpkg'],
+                                      ['wpkg.tests', 'wpkg.tests'], ['wpkg'], ['wpkg.tests']])
     knobs = {**({'defaults_split': rng.randint(0, 99)} if rng.random() < 0.3 else {}),
              'pipe_capacity': rng.choice([64, 4096])}
     if any(e['a'] == 'argv_append' for e in plan):
